@@ -29,6 +29,10 @@ func sortedCalls[V any](m map[*CallStm]V) []*CallStm {
 		calls = append(calls, c)
 	}
 	sort.Slice(calls, func(i, j int) bool {
+		// A reference to a call which does not exist shows up as a nil key.
+		if calls[i] == nil || calls[j] == nil {
+			return calls[i] == nil && calls[j] != nil
+		}
 		if calls[i].Id != calls[j].Id {
 			return calls[i].Id < calls[j].Id
 		}
